@@ -557,13 +557,51 @@ func (c *EvalCtx) localName(name string) (tv, bool) {
 				}
 			}
 		}
-		// a phi that merges the other candidates is the variable's value after the merge
+		// phis carrying the variable's name take part even without a debug reference
+		for _, b := range fr.fn.Blocks {
+			for _, in := range b.Instrs {
+				ph, ok := in.(*ssa.Phi)
+				if !ok {
+					break
+				}
+				if ph.Comment == name {
+					if _, has := st.vals[ph]; has {
+						dup := false
+						for _, v := range cands {
+							if v == ph {
+								dup = true
+							}
+						}
+						if !dup {
+							cands = append(cands, ph)
+						}
+					}
+				}
+			}
+		}
+		// a phi that merges (directly or through other phis) all the other candidates is the variable's value after
+		// the merge; among several such phis the one that comes last in program order
+		var covering []ssa.Value
 		for _, v := range cands {
 			ph, ok := v.(*ssa.Phi)
 			if !ok {
 				continue
 			}
-			covers := true
+			reach := map[ssa.Value]bool{}
+			var walk func(p *ssa.Phi)
+			walk = func(p *ssa.Phi) {
+				for _, e := range p.Edges {
+					if reach[e] {
+						continue
+					}
+					reach[e] = true
+					if ep, ok := e.(*ssa.Phi); ok {
+						walk(ep)
+					}
+				}
+			}
+			walk(ph)
+			all := true
 			for _, o := range cands {
 				if o == v {
 					continue
@@ -571,19 +609,19 @@ func (c *EvalCtx) localName(name string) (tv, bool) {
 				if _, isConst := o.(*ssa.Const); isConst {
 					continue
 				}
-				found := false
-				for _, e := range ph.Edges {
-					if e == o {
-						found = true
-					}
-				}
-				if !found {
-					covers = false
+				if !reach[o] {
+					all = false
 				}
 			}
-			if covers {
-				return tv{c.ex.val(st, v), v.Type()}, true
+			if all {
+				covering = append(covering, v)
 			}
+		}
+		if len(covering) == 1 {
+			return tv{c.ex.val(st, covering[0]), covering[0].Type()}, true
+		}
+		if len(covering) > 1 {
+			cands = covering
 		}
 		// otherwise the definition that comes last in program order among those already executed
 		var best ssa.Value
